@@ -165,7 +165,14 @@ func (c *Ctx) assume(t string) {
 }
 
 // global lines (function declarations, quantified axioms): always part of every query
-func (c *Ctx) global(t string) { c.addLine(bgLine{text: t, kind: 'g'}) }
+func (c *Ctx) global(t string) {
+	if len(symsOf(t)) > 0 {
+		// mentions program symbols: an ordinary (sliceable) assumption
+		c.addLine(bgLine{text: t, kind: 'a'})
+		return
+	}
+	c.addLine(bgLine{text: t, kind: 'g'})
+}
 
 func (c *Ctx) declareFun(name, sig string) {
 	if c.declared == nil {
